@@ -463,7 +463,7 @@ impl<'a> G<'a> {
         let mut out = vec![];
         let n = self.r.usize(4);
         for _ in 0..n {
-            match self.r.below(11) {
+            match self.r.below(13) {
                 0 | 1 => {
                     let f = self.fresh("f");
                     let saved_param = self.param.clone();
@@ -533,6 +533,19 @@ impl<'a> G<'a> {
                     out.push(format!("{f} = #'int {{ | =0 => 7 | &{g} ^~ }}"));
                     self.vars.push(Var { name: g, kind: Kind::FnNil });
                     self.vars.push(Var { name: f, kind: Kind::FnInt });
+                }
+                11 | 12 => {
+                    // loops that re-enter through a named / ripple tail call written inside a
+                    // nested block (self handed to itself: the std/iter.qv idiom)
+                    self.feat("tail-named-in-block");
+                    let f = self.fresh("sl");
+                    let step = self.int(1);
+                    match self.r.below(4) {
+                        0 => out.push(format!("{f} = #[#^ -> 'int, 'int, 'int] {{ | =[_, 0, acc] => acc | =[self, n, acc] => {{ m = [n, 1] __integer_subtract__, [&self, m, [acc, {step}] __integer_add__] ^self }} }}")),
+                        1 => out.push(format!("{f} = #[#^ -> 'int, 'int, 'int] {{ | =[_, 0, acc] => acc | =[self, n, acc] => {{ | n =1 => [&self, 0, acc] ^self | [&self, [n, 1] __integer_subtract__, [acc, {step}] __integer_add__] ^self }} }}")),
+                        2 => out.push(format!("{f} = #[#^ -> (#[] -> 'int), 'int, 'int] {{ =[self, n, acc], #{{ | n =0 => acc | {{ [n, acc] =[a, b], [&self, [a, 1] __integer_subtract__, [b, {step}] __integer_add__] self ^~ }} }} }}")),
+                        _ => out.push(format!("{f} = #[#^ -> 'int, #^ -> 'int, 'int, 'int] {{ =[me, other, n, acc], {{ | n =0 => acc | [&other, &me, [n, 1] __integer_subtract__, [acc, {step}] __integer_add__] ^other }} }}")),
+                    }
                 }
                 8 | 9 => {
                     // nil-parameter function that recurses with a bare `^` after a non-nil step (the
